@@ -567,6 +567,57 @@ func init() {
 	}
 }
 
+// application structs that embed a document type anonymously (the documented way to use
+// BestChecksums; common for adding one's own fields to an index paragraph)
+type embedBest struct {
+	Package string
+	control.BestChecksums
+}
+type embedSrc struct {
+	control.SourceIndex
+	Testsuite string
+}
+type embedBin struct {
+	Note string `control:"X-Note"`
+	control.BinaryIndex
+}
+type embedDSC struct {
+	control.DSC
+	Extra string `control:"X-Extra"`
+}
+
+func init() {
+	// law: a document type decodes the same on its own and embedded in an application struct
+	codecImpl["law-docembed"] = func(a []string) string {
+		kind, text := a[0], core.MustUnHex(a[1])
+		alone := reflect.New(codecTypes[kind])
+		if err := control.Unmarshal(alone.Interface(), strings.NewReader(text)); err != nil {
+			return "ok"
+		}
+		var wrapped reflect.Value
+		switch kind {
+		case "BestChecksums":
+			wrapped = reflect.ValueOf(&embedBest{})
+		case "SourceIndex":
+			wrapped = reflect.ValueOf(&embedSrc{})
+		case "BinaryIndex":
+			wrapped = reflect.ValueOf(&embedBin{})
+		case "DSC":
+			wrapped = reflect.ValueOf(&embedDSC{})
+		default:
+			return "ok"
+		}
+		if err := control.Unmarshal(wrapped.Interface(), strings.NewReader(text)); err != nil {
+			return "FAIL embedded in an application struct: " + err.Error()
+		}
+		got, want := dumpGoRecord(wrapped.Elem().FieldByName(kind)), dumpGoRecord(alone.Elem())
+		if got != want {
+			return fmt.Sprintf("FAIL %s embedded in an application struct decodes to %s, on its own to %s", kind, clipStr(got, 400), clipStr(want, 400))
+		}
+		return "ok"
+	}
+}
+
 func streamDocs(g *core.G) {
 	r := g.R
 	kinds := []string{"DSC", "Changes", "SourceParagraph", "BinaryParagraph", "BinaryIndex", "SourceIndex", "BestChecksums", "DebControl"}
@@ -579,6 +630,9 @@ func streamDocs(g *core.G) {
 			g.Emit(o, a...)
 			g.Emit("law-doc", append([]string{kind, core.Hex(text)}, expectedRecordDump(t, expect)...)...)
 			g.Emit("law-accessors", kind, core.Hex(text))
+			if kind == "BestChecksums" || kind == "SourceIndex" || kind == "BinaryIndex" || kind == "DSC" {
+				g.Emit("law-docembed", kind, core.Hex(text))
+			}
 			if kind == "BinaryIndex" || kind == "SourceIndex" {
 				t2, _ := genTypedDoc(r, kind)
 				multi := text + "\n" + t2
@@ -613,7 +667,7 @@ func streamDocs(g *core.G) {
 
 func docsReadable(op string, a []string) string {
 	switch op {
-	case "law-doc", "law-accessors":
+	case "law-doc", "law-accessors", "law-docembed":
 		return fmt.Sprintf("%s %s %q", op, a[0], core.MustUnHex(a[1]))
 	case "docctl":
 		return fmt.Sprintf("ParseControl(%q)", core.MustUnHex(a[len(a)-1]))
